@@ -226,9 +226,11 @@ def suite_fonts(ctx, res, n, n_origin=0):
     cases += [fontgen.make_origin_anchored_case(ctx.rng.getrandbits(32), fmt=(FORMATS0 + ["glyf"])[i % 4]) for i in range(n_origin)]
     # every source of alpha (opacity, hex alpha digits, palette variables with either) on solid fills: "colour and alpha taken from the palette"
     cases += [fontgen.make_var_opacity_case(ctx.rng.getrandbits(32), fmt=FORMATS0[i % 3]) for i in range(max(3, n // 8))]
+    # a single-shape glyph whose outline is used again inside a translucent group of another glyph (the lone-component flattening rule of the glyf build)
+    cases += [fontgen.make_group_share_case(ctx.rng.getrandbits(32), fmt=["glyf", "glyf", "glyf_colr_0", "cff_colr_0"][i % 4]) for i in range(max(4, n // 8))]
     for idx, case in enumerate(cases):
         # half of the cases are flat (the image claim), half have groups
-        flat = idx % 2 == 0 or case.get("family") in ("origin-anchored", "var-opacity")
+        flat = (idx % 2 == 0 and case.get("family") != "group-share") or case.get("family") in ("origin-anchored", "var-opacity")
         if flat and "family" not in case:
             case = fontgen.make_case(case["seed"], case["fmt"], gradients=False, groups=False, special_colors=False)
         out = fontgen.build(case)
